@@ -334,3 +334,78 @@ def content_split(R, ctx, rid):
         ok = bool(subs) and kept_ok
         why = "returns Deleted(len - offset): %s; keeps offset: %s" % (bool(subs), kept_ok)
     R.ob(rid, fn, "arm:Deleted", ok, why)
+
+
+
+def _arm_returns(fn):
+    """(tuple of matched variant names, simp_deep return term) for every definition of the return place."""
+    v = FnView(fn)
+    out = []
+    for i, j, st in fn.stmts():
+        if st["dst"] == 0:
+            g = tuple(l.polarity for l in v.guards(i) if isinstance(l.polarity, (str, tuple)))
+            out.append((g, simp_deep(v.terms.rvalue(st["rv"], 10))))
+    for bb, b in enumerate(fn.blocks):
+        t = b["t"]
+        if "call" in t and t.get("dest") == 0:
+            cs = F.CallSite(fn, bb, t)
+            g = tuple(l.polarity for l in v.guards(bb) if isinstance(l.polarity, (str, tuple)))
+            out.append((g, ("call", cs.name, tuple(simp_deep(v.arg(cs, k, 8)) for k in range(len(cs.args))), bb)))
+    return out
+
+
+def content_tables(R, ctx, rid):
+    """per-kind tables of ItemContent: element count, countability, squashability, wire number."""
+    Y = ctx.yrs
+    R.rule(rid, "R-TABLE content kinds: ItemContent::len is the element count that clocks are assigned from (Deleted(n) -> n, String -> "
+                "SplittableString::len(s, kind), Any / JSON -> Vec::len, every other kind -> 1); is_countable is false exactly for "
+                "Format and Deleted; try_squash succeeds only for two contents of the same kind among Any, Deleted, JSON, String; "
+                "get_ref_number maps each kind to the BLOCK_ITEM_<KIND>_REF_NUMBER constant of its own name")
+    # len
+    fn = Y.fn("yrs::block::ItemContent::len")
+    got = {}
+    for g, t in _arm_returns(fn):
+        got[g] = t
+    def arm(name):
+        for g, t in got.items():
+            if g == (name,):
+                return t
+        return None
+    d, s_, a, j = arm("Deleted"), arm("String"), arm("Any"), arm("JSON")
+    other = [t for g, t in got.items() if g and isinstance(g[0], tuple) and g[0][0] == "not"]
+    ok = d is not None and d[0] == "field" and d[1].endswith("ItemContent::Deleted.0") and \
+        s_ is not None and s_[0] == "call" and s_[1].endswith("SplittableString::len") and any(x[0] == "param" for x in walk(s_[2][1])) and \
+        a is not None and a[0] == "call" and re.search(r"Vec(<.*>)?::len$", a[1]) and term_has_field(a, "ItemContent::Any.0") and \
+        j is not None and j[0] == "call" and re.search(r"Vec(<.*>)?::len$", j[1]) and term_has_field(j, "ItemContent::JSON.0") and \
+        len(other) == 1 and simp(other[0])[:2] == ("const", 1) and set(other and [g for g in got if g and isinstance(g[0], tuple)][0][0][1]) == {"Any", "Deleted", "JSON", "String"}
+    R.ob(rid, fn, "len-table", ok, "ItemContent::len per kind: %s" % {str(g): sshow(t, 4) for g, t in got.items()})
+    # is_countable
+    fn = Y.fn("yrs::block::ItemContent::is_countable")
+    tab = {}
+    for g, t in _arm_returns(fn):
+        if len(g) == 1 and isinstance(g[0], str):
+            tab[g[0]] = simp(t)[1] if simp(t)[0] == "const" else None
+    falses = {k for k, val in tab.items() if val == 0}
+    trues = {k for k, val in tab.items() if val == 1}
+    R.ob(rid, fn, "countable-table", falses == {"Format", "Deleted"} and len(trues) >= 7 and None not in tab.values(),
+         "not countable: %s; countable: %s" % (sorted(falses), sorted(trues)))
+    # try_squash
+    fn = Y.fn("yrs::block::ItemContent::try_squash")
+    pairs = {}
+    for g, t in _arm_returns(fn):
+        val = simp(t)[1] if simp(t)[0] == "const" else None
+        pairs[g] = val
+    good = {g for g, val in pairs.items() if val == 1}
+    R.ob(rid, fn, "squash-table", good == {("Any", "Any"), ("Deleted", "Deleted"), ("JSON", "JSON"), ("String", "String")} and pairs.get((), 0) == 0,
+         "squashable pairs: %s" % sorted(good))
+    # ref numbers by name
+    fn = Y.fn("yrs::block::ItemContent::get_ref_number")
+    bad = []
+    n = 0
+    for g, t in _arm_returns(fn):
+        if len(g) == 1 and isinstance(g[0], str):
+            n += 1
+            name = simp(t)[2] if simp(t)[0] == "const" and len(simp(t)) > 2 else None
+            if not (name and str(name).endswith("BLOCK_ITEM_%s_REF_NUMBER" % g[0].upper())):
+                bad.append((g[0], name))
+    R.ob(rid, fn, "ref-number-names", not bad and n >= 9, "each kind returns the constant of its own name (%d kinds)" % n if not bad else "kind/constant mismatch: %s" % bad)
